@@ -7,6 +7,7 @@
 //
 //	conv    <typeref> <value>     DecodeParameterType, then ConvertValue(structpb(value).AsInterface())
 //	convraw <typeref> <value>     ConvertValue on the raw Go value (float64 NaN/Inf stay numbers)
+//	slow    <typeref> <value>     like conv, but the conversion has to finish within 5 s (else TIMEOUT)
 //	cast    <params> <ctx>        CastContextToTypedParameters
 //	eval    <tupleCondName> <ec:0|1> <condName> <params> <okc|raw> <expr> <tup> <req> <extra>
 //
@@ -55,12 +56,12 @@ type V struct {
 	Vals []V
 }
 
-func vNull() V            { return V{K: 'N'} }
-func vBool(b bool) V      { return V{K: map[bool]byte{true: 'T', false: 'F'}[b]} }
-func vNum(f float64) V    { return V{K: 'D', Bits: math.Float64bits(f)} }
-func vBits(b uint64) V    { return V{K: 'D', Bits: b} }
-func vStr(s string) V     { return V{K: 'S', S: []byte(s)} }
-func vList(xs ...V) V     { return V{K: 'L', L: xs} }
+func vNull() V                 { return V{K: 'N'} }
+func vBool(b bool) V           { return V{K: map[bool]byte{true: 'T', false: 'F'}[b]} }
+func vNum(f float64) V         { return V{K: 'D', Bits: math.Float64bits(f)} }
+func vBits(b uint64) V         { return V{K: 'D', Bits: b} }
+func vStr(s string) V          { return V{K: 'S', S: []byte(s)} }
+func vList(xs ...V) V          { return V{K: 'L', L: xs} }
 func vMap(k []string, v []V) V { return V{K: 'M', Keys: k, Vals: v} }
 
 func hexOrEmpty(b []byte) string { return hex.EncodeToString(b) }
@@ -570,6 +571,30 @@ func exec(line string, st *hx.Stats) string {
 			}
 			return encTyped(out)
 		})
+	case "slow":
+		// the conversion must terminate promptly: run it with a deadline (the goroutine is abandoned on timeout)
+		tr, _ := decTR(f[1])
+		v := mustV(f[2])
+		done := make(chan string, 1)
+		go func() {
+			done <- guard(func() string {
+				pt, err := types.DecodeParameterType(tr.toProto())
+				if err != nil {
+					return "DECERR"
+				}
+				out, err := pt.ConvertValue(v.toPB().AsInterface())
+				if err != nil {
+					return "ERR"
+				}
+				return encTyped(out)
+			})
+		}()
+		select {
+		case res := <-done:
+			return "done " + res
+		case <-time.After(5 * time.Second):
+			return "TIMEOUT"
+		}
 	case "cast":
 		ps := decParams(f[1])
 		c, ok := ctxOf(f[2])
@@ -866,15 +891,16 @@ func genNumString(r *hx.Rand) string {
 		return s
 	case 2: // exactly representable fractions
 		return hx.Pick(r, []string{"0.5", "0.25", "1.5", "-2.75", "0.125", "1.0", "10e-1", "25e-2", "1e0", "5e-1", "0.1", "0.3", "1e-1", "3.0000000000000001", "0.99999999999999999999999", "1.00000000000000000001", "4.9406564584124654e-324", "5e-324", "2.2250738585072014e-308", "1.7976931348623157e308", "1.7976931348623159e308", "1e308", "1e309", "4.94065645841246544176568792868221372365059802614324764425585682500675507270208751865299836361635992379796564695445717730926656710355939796398774796010781878126300713190311404527845817167848982103688718636056998730723050006387409153564984387312473397273169615140031715385398074126238565591171395345125846e-324"})
-	case 3: // big exponents
-		e := hx.Pick(r, []int{20, 55, 56, 100, 308, 400, 1000, 5000, 100000, 1000000})
+	case 3: // big exponents (bounded: the real converter's error messages call big.Float.String(), whose
+		// cost is quadratic in the decimal exponent — "1e-1000000" takes minutes; see the `slow` case)
+		e := hx.Pick(r, []int{20, 55, 56, 100, 308, 400, 1000, 5000})
 		s := strconv.Itoa(1+r.Intn(99)) + hx.Pick(r, []string{"e", "E", "e+", "e-", "E-"}) + strconv.Itoa(e+r.Intn(3))
 		if r.Chance(1, 3) {
 			s = "-" + s
 		}
 		return s
-	case 4: // exponent range errors
-		return hx.Pick(r, []string{"1e2147483647", "1e2147483648", "1e-2147483648", "1e-2147483649", "1e9223372036854775807", "1e9223372036854775808", "1e-9223372036854775808", "1e-9223372036854775809", "1e99999999999999999999", "0e99999999999999999999", "0e9223372036854775807", "1p2147483646", "1p2147483647", "3p2147483646", "1p-2147483649", "1p-2147483648", "0.1e2147483647", "10e2147483646", "1e646456992", "1e646456993", "1e646456994", "1e-646456993", "1e-646456994", "1e-646457012", "1e1000000000", "1e-1000000000"})
+	case 4: // exponent range errors, overflow to Inf, underflow to 0 (all fast in the real code)
+		return hx.Pick(r, []string{"1e2147483647", "1e2147483648", "1e-2147483648", "1e-2147483649", "1e-2147483650", "1e9223372036854775807", "1e9223372036854775808", "1e-9223372036854775808", "1e-9223372036854775809", "1e99999999999999999999", "0e99999999999999999999", "0e9223372036854775807", "0e-5", "1p2147483647", "3p2147483646", "1p-2147483650", "0.1e2147483647", "10e2147483646", "1e1000000000", "1e-1000000000", "1e2000000000", "-1e-2000000000", "-1e1500000000", "1e924870900", "1e-930000000"})
 	case 5: // binary exponent
 		return strconv.Itoa(r.Intn(40)) + hx.Pick(r, []string{"p", "P", "p-", "p+"}) + strconv.Itoa(r.Intn(70))
 	case 6: // long mantissas (rounding to 64 bits)
@@ -1099,7 +1125,7 @@ func genExpr(r *hx.Rand, ps []Param, depth int) string {
 	return genCmp(r, ps)
 }
 
-var rawBad = []string{"x +", "1", "undeclared_zz == 1", "\"a\"", "x", "1 == \"a\"", "", "true &&", "x == ", "duration(\"1h\")"}
+var rawBad = []string{"x +", "1", "undeclared_zz == 1", "\"a\"", "1 == \"a\"", "", "true &&", "x == ", "duration(\"1h\")", "[1, 2]", "true ? 1 : 2"}
 
 func genCtxLine(r *hx.Rand, keys []string, vals []V) string {
 	if keys == nil {
@@ -1119,7 +1145,10 @@ func genCtxLine(r *hx.Rand, keys []string, vals []V) string {
 }
 
 func gen(r *hx.Rand, n int, tier string, emit func(string), st *hx.Stats) {
-	for i := 0; i < n; i++ {
+	// one deterministic liveness case per run: a 11-byte numeric string whose conversion must fail promptly
+	st.Inc("slow")
+	emit("slow " + hx.Pick(r, []string{"i", "u"}) + " " + vStr("1e-3000000").enc())
+	for i := 1; i < n; i++ {
 		c := r.Fork()
 		switch k := c.Intn(20); {
 		case k < 5:
